@@ -21,9 +21,12 @@ RULE = (
 ASSUMPTIONS = [
     "coefficients are exactly 0 or have magnitude in [1e-3, 1e3]; nothing is asserted about "
     "equality in the band between the library's hash granularity (1e-6) and 1e-3",
-    "tolerance is operand-relative (1e-9 * product of operand norms) plus 1e-8 per reference "
+    "tolerance is operand-relative (1e-12 * product of operand norms) plus 1e-8 per reference "
     "coefficient that is itself below 2e-8 (simplify may drop those)",
 ]
+
+# relative accuracy demanded of the arithmetic (operand-relative); double rounding is ~1e-16 per operation
+REL = 1e-12
 
 STR3 = list(itertools.product("IXYZ", repeat=3))
 MAT3 = {s: ref.pauli_string_matrix({i: p for i, p in enumerate(s) if p != "I"}, 3) for s in STR3}
@@ -96,7 +99,7 @@ def eval_ref(node):
         c = pgen.canon_operand(node)
         # like terms of an operand may cancel to a residue below the library's 1e-8 zero tolerance, which simplify drops
         tiny = sum(1 for v in c.values() if 0 < abs(v) <= 2e-8)
-        return c, max(pgen.canon_norm(c), 1e-300), 1e-8 * tiny
+        return c, max(pgen.raw_norm(node), 1e-300), 1e-8 * tiny
     a, na, ea = eval_ref(node["a"])
     op = node["op"]
     if op == "/":
@@ -159,7 +162,7 @@ def o_tree(spec):
     L = must(lambda: eval_lib(node), "operator arithmetic")
     C = pgen.canon_of(L)
     d = pgen.canon_diff(C, R)
-    tol = 1e-9 * bound + allow + 1e-300
+    tol = REL * bound + allow + 1e-300
     require(d <= tol, lambda: f"result differs from matrix arithmetic: max coefficient error {d:.3g} > {tol:.3g}; got {L!r}")
     cl = _tree_classes(node)
     shared = False
@@ -206,7 +209,7 @@ def o_binop(spec):
         return {"inconclusive": "pure_number_tree"}
     n = 4
     A = _dense(node["a"], n)
-    na = max(pgen.canon_norm(pgen.canon_operand(node["a"])), 1e-300)
+    na = max(pgen.raw_norm(node["a"]), 1e-300)
     op = node["op"]
     if op == "/":
         s = pgen.coef(node["s"])
@@ -215,7 +218,7 @@ def o_binop(spec):
         R, bound = np.linalg.matrix_power(A, node["k"]), max(na, 1.0) ** node["k"]
     else:
         B = _dense(node["b"], n)
-        nb = max(pgen.canon_norm(pgen.canon_operand(node["b"])), 1e-300)
+        nb = max(pgen.raw_norm(node["b"]), 1e-300)
         R = A + B if op == "+" else A - B if op == "-" else A @ B
         bound = na * nb if op == "*" else na + nb
     L = must(lambda: eval_lib(node), f"operator {op}")
@@ -224,7 +227,7 @@ def o_binop(spec):
     M = pgen.lib_matrix(L, n)
     _, _, allow = eval_ref(node)
     d = ref.maxdiff(M, R)
-    tol = 1e-9 * bound + allow * 16
+    tol = REL * bound + allow * 16
     require(d <= tol, lambda: f"matrix of result differs by {d:.3g} > {tol:.3g}; got {L!r}")
     return o_tree(spec)
 
@@ -246,7 +249,7 @@ def o_simplify(spec):
     tiny = sum(1 for v in R.values() if 0 < abs(v) <= 2e-8)
     bound = sum(abs(pgen.coef(t["c"])) for t in spec["s"]["terms"])
     d = pgen.canon_diff(C, R)
-    require(d <= 1e-9 * bound + 1e-8 * tiny, lambda: f"simplify changed the operator by {d:.3g}")
+    require(d <= REL * bound + 1e-8 * tiny, lambda: f"simplify changed the operator by {d:.3g}")
     keys = [tuple(sorted(t.operations)) for t in r.terms]
     require(len(set(keys)) == len(keys), "simplify left like terms unmerged")
     require(all(abs(t.coefficient) > 1e-8 for t in r.terms), "simplify kept a zero term")
@@ -271,19 +274,56 @@ def eq_cases(draw, tier):
     seed = draw(st.integers(0, 10 ** 6))
     delta_idx = draw(st.integers(0, 7))
     delta = draw(st.sampled_from([1e-3, -1e-3, 0.5, 1.0, ["c", 0.0, 1e-3], ["c", 0.0, -2.0]]))
-    return {"s": s, "seed": seed, "di": delta_idx, "delta": delta, "mode": draw(st.sampled_from(["perm", "perturb", "letter", "routes", "drop"]))}
+    mode = draw(st.sampled_from(["perm", "perturb", "letter", "routes", "drop", "decimal_routes"]))
+    if mode == "decimal_routes":
+        # coefficients that are short decimals (k/10, k/100, k/8): sums and products of such numbers are routinely off by one
+        # unit in the last place from the decimal one would write, i.e. by 1e-16 - far inside the 1e-8 tolerance of ==
+        ts = draw(st.lists(pgen.terms(max_q=4, zero=False, kinds=("int",)), min_size=1, max_size=4, unique_by=lambda t: tuple(map(tuple, t["ops"]))))
+        for t in ts:
+            den = draw(st.sampled_from([10, 10, 100, 8, 5]))
+            t["c"] = draw(st.integers(2, 40)) / den * draw(st.sampled_from([1, -1]))
+            t["j"] = draw(st.integers(1, 39))
+            t["den"] = den
+        return {"s": {"terms": ts}, "seed": seed, "di": delta_idx, "delta": delta, "mode": mode,
+                "factor": draw(st.sampled_from([0.3, 0.1, 0.7, 3, 1.1, 0.6]))}
+    return {"s": s, "seed": seed, "di": delta_idx, "delta": delta, "mode": mode}
 
 
 def o_equality(spec):
     import random as _r
     from orquestra.quantum.operators import PauliSum, PauliTerm
 
-    base = must(lambda: pgen.build_sum(spec["s"]).simplify(), "simplify")
+    base = must(lambda: pgen.build_sum({"terms": [{"ops": t["ops"], "c": t["c"]} for t in spec["s"]["terms"]]}).simplify(), "simplify")
     terms = list(base.terms)
     if not terms:
         return {"inconclusive": "empty_after_simplify"}
     rnd = _r.Random(spec["seed"])
     mode = spec["mode"]
+    if mode == "decimal_routes":
+        # the same operator reached by other arithmetic routes; every coefficient agrees with the direct one to a few 1e-16
+        split = PauliSum()
+        for t in spec["s"]["terms"]:
+            c, den = t["c"], t["den"]
+            k = round(abs(c) * den)
+            j = 1 + t["j"] % (k - 1)
+            sgn = 1 if c > 0 else -1
+            p = PauliTerm({int(q): l for q, l in t["ops"]})
+            split = split + (sgn * (j / den)) * p + (sgn * ((k - j) / den)) * p
+        f = spec["factor"]
+        routes = {"c1 + c2": split, "(x * f) / f": (base * f) / f, "f*x - (f-1)*x": f * base - (f - 1) * base,
+                  "distributed": terms[0] * f + PauliSum(terms[1:]) * f if len(terms) > 1 else terms[0] * f}
+        want = {"distributed": base * f}
+        worst = 0.0
+        for name, other in routes.items():
+            ref_side = want.get(name, base)
+            d = pgen.canon_diff(pgen.canon_of(other), pgen.canon_of(ref_side))
+            worst = max(worst, d)
+            if d > 1e-12:
+                return {"inconclusive": "route_not_equal_enough"}  # harness arithmetic, not the library's ==
+            require(must(lambda: ref_side == other, "==") is True,
+                    lambda: f"operators whose coefficients differ by {d:.3g} (route {name}) compare unequal: {ref_side!r} vs {other!r}")
+            require(must(lambda: other == ref_side, "==") is True, lambda: f"== not symmetric (route {name})")
+        return {"classes": ["decimal_routes"] + (["last_place_differs"] if worst > 0 else []), "nontrivial": worst > 0}
     if mode == "perm":
         perm = terms[:]
         rnd.shuffle(perm)
@@ -412,7 +452,7 @@ def o_shared(spec):
             return {"inconclusive": "magnitude_overflow"}
         L = must(lambda: _eval_shared(tree, objs), "operator arithmetic on shared operands")
         d = pgen.canon_diff(pgen.canon_of(L), R)
-        tol = 1e-9 * bound + allow + 1e-300
+        tol = REL * bound + allow + 1e-300
         drift = [i for i, (o, c) in enumerate(zip(objs, canons)) if pgen.canon_diff(pgen.canon_of(o), c) > 0]
         require(d <= tol, lambda: f"expression over shared operands differs from matrix arithmetic by {d:.3g} > {tol:.3g}; got {L!r}" + (f" (operands {drift} were modified by an earlier operation)" if drift else ""))
     def count(node):
@@ -424,7 +464,7 @@ def o_shared(spec):
 # ---------------------------------------------------------------- nearly equal operands in one process
 # The library's hash rounds coefficients to 1e-6 and its == uses np.allclose, so two operators
 # that differ by a few 1e-7 hash and compare equal although they denote different matrices
-# (difference far above the 1e-9 relative accuracy of the arithmetic). Arithmetic must still
+# (difference far above the 1e-12 relative accuracy of the arithmetic). Arithmetic must still
 # treat them as the different operators they are, whatever was computed before.
 
 DELTAS = [0.0, 3e-7, -2e-7, 4e-8, 1e-9, 6e-7]
@@ -477,7 +517,7 @@ def o_near(spec):
             return {"inconclusive": "magnitude_overflow"}
         L = must(lambda: eval_lib(node), "operator arithmetic")
         dd = pgen.canon_diff(pgen.canon_of(L), R)
-        tol = 1e-9 * bound + allow + 1e-300
+        tol = REL * bound + allow + 1e-300
         require(dd <= tol, lambda: f"operand variant {i} (one coefficient scaled by 1+{d}) under '{op}': result differs from matrix arithmetic by {dd:.3g} > {tol:.3g}; got {L!r}")
     ds = set(spec["deltas"])
     return {"classes": ["op" + op], "nontrivial": len(ds) >= 2}
@@ -498,7 +538,7 @@ SUBCHECKS = [
 SUBCHECKS.append(SubCheck("shared_operands", o_shared, strategy=shared_cases, examples=(500, 3000), shards=(2, 8),
                           rule="expression DAGs in which the same operand object occurs several times (incl. x+x, x*x, simplify): result == matrix arithmetic and every operand still denotes its matrix; non-trivial = an operand used more than once"))
 SUBCHECKS.append(SubCheck("near_duplicates", o_near, strategy=near_cases, examples=(600, 3000), shards=(2, 8),
-                          rule="2-4 copies of one operand with a coefficient scaled by 1+d, d in {0, 1e-9 .. 6e-7} (hash- and allclose-equal for the library, different matrices), pushed through the same operation one after another in one process: each result equals matrix arithmetic at 1e-9 relative; non-trivial = at least two different d"))
+                          rule="2-4 copies of one operand with a coefficient scaled by 1+d, d in {0, 1e-9 .. 6e-7} (hash- and allclose-equal for the library, different matrices), pushed through the same operation one after another in one process: each result equals matrix arithmetic at 1e-12 relative; non-trivial = at least two different d"))
 SUBCHECKS[2].expected_classes = ["phase_table_used", "duplicate_terms", "zero_coefficient", "number_on_left", "empty_sum", "op/", "op**"]
 
 
